@@ -26,7 +26,7 @@ NADIR = [0, 10, 20, 30, 40, 50, 60, 70, 80, 85, 88, 89, 89.5, 89.9, 90, 90.1, 90
 AZIM = [0, 90, 180, 270, 37]
 DEPTHS = [100.0, 0.0, -1.0, -100.0, -1000.0, -3000.0]
 OFFSETS = [(0.0, 0.0), (1000.0, -2000.0)]
-NORMS = [1.0, 7.5]
+NORMS = [1.0, 7.5, 2.0 ** -33, 2.0 ** 30]      # "independent of the length of the direction vector": also very short and very long ones
 
 
 def cases(tier, seed):
@@ -181,6 +181,27 @@ def _chord_case(case):
                     fails.append(_fc("slant-monotone", case, step, nad, 0, 1.0,
                                      "slant depth grows from %r to %r although the chord dips less" % (prev[0], base_val)))
                 prev = (base_val, slack)
+    # one chord asked for with one step after another (a step-convergence study on the same model object): every answer is within
+    # the discretisation error of ITS step
+    for nad in (0, 40, 80, 89):
+        d, _ = _dir(nad, 0, 1.0)
+        ep = (x0, y0, depth)
+        dist, exact, jumps, rho_exit = ex.chord(ep, d, shells, R)
+        if dist <= 0:
+            continue
+        for step in (4000.0, 125.0, 4000.0, 500.0):
+            n += 1
+            got = float(m.slant_depth(ep, d, step=step))
+            nst = int(dist / step) + (1 if dist % step else 0)
+            if nst <= 1:
+                tol = 110.0 * step * rho_max
+            else:
+                h = dist / (nst - 1)
+                tol = 110.0 * h * (rho_exit / 2 + sum(j for _, j in jumps)) + 100.0 * h * h * 2e-6 * (dist / h) * 0.1 + 1e-6 * exact
+            if not abs(got - exact) <= tol:
+                fails.append(_fc("slant-step-sequence", case, step, nad, 0, 1.0,
+                                 "asked for after the same chord with another step: slant_depth = %.6f, exact chord integral %.6f, |err| %.4g > tol %.4g"
+                                 % (got, exact, abs(got - exact), tol)))
     stats = {"max_err_over_tol": max_ratio}
     for s, w in worst.items():
         stats["max_relerr_step%d" % s] = w
